@@ -5,7 +5,7 @@ CONSTANTS
   Fanouts = {0, 2}
   MaxAdds = 2
   Kinds = {"text", "image", "pdf"}
-  Sels1 = {1, 2, 3, 5, 6}
+  Sels1 = {1, 2, 3, 5}
   Sels2 = {1, 3}
   SelsR = {1, 4}
   FreeDesc = FALSE
